@@ -76,6 +76,8 @@ def annotate(prog) -> List[Any]:
             if not env.get("i"):
                 raise Skip()
             return o
+        if k == "aa":                    # A0[A0[k]]: an array entry whose index is itself a Future
+            return o
         raise AssertionError(o)
 
     def walk(stmts, env):
@@ -104,7 +106,14 @@ def annotate(prog) -> List[Any]:
                     node["dest"] = ("cell", st["cells"])
                     st["lastreg"] = st["cells"]
                     st["cells"] += 1
+                elif dest[0] == "aa":
+                    node["dest"] = ("aa", dest[1])
                 out.append(node)
+            elif k == "newreg":
+                # conn.builder.new_register(init): a register the host holds on to
+                out.append({"k": "newreg", "init": s[1], "dest": ("cell", st["cells"])})
+                st["lastreg"] = st["cells"]
+                st["cells"] += 1
             elif k == "add":
                 _, target, operand, mod = s
                 out.append({"k": "add", "target": res_operand(target, env), "operand": res_operand(operand, env), "mod": mod})
@@ -187,11 +196,21 @@ class Direct:
             v = self.arrays[0][env["vi"]]
         elif k == "i":
             v = env["i"]
+        elif k == "aa":
+            v = self.arrays[0][self._aa_index(o)]
         else:
             raise AssertionError(o)
         if v is None:
             raise Undefined(f"read of undefined {o}")
         return v
+
+    def _aa_index(self, o) -> int:
+        idx = self.arrays[0][o[1]]
+        if idx is None:
+            raise Undefined("index entry is undefined")
+        if not 0 <= idx < len(self.arrays[0]):
+            raise Undefined("index outside the array")
+        return idx
 
     def wr(self, o, env, val):
         k = o[0]
@@ -206,6 +225,8 @@ class Direct:
             self.cells[o[1]] = val
         elif k == "v":
             self.arrays[0][env["vi"]] = val
+        elif k == "aa":
+            self.arrays[0][self._aa_index(o)] = val
         else:
             raise AssertionError(o)
 
@@ -236,6 +257,8 @@ class Direct:
             elif k == "m":
                 out = self.measure_fresh(n["prep"])
                 self.wr(n["dest"], env, out)
+            elif k == "newreg":
+                self.wr(n["dest"], env, n["init"])
             elif k == "add":
                 x = self.rd(n["target"], env)
                 y = self.rd(n["operand"], env)
@@ -314,6 +337,8 @@ class Real:
             return self.locs[(0, o[1])]
         if k == "cell":
             return self.cells[o[1]]
+        if k == "aa":
+            return self.A0.get_future_index(self.locs[(0, o[1])])
         if k == "v":
             return env["v"]
         if k == "i":
@@ -348,6 +373,11 @@ class Real:
                     r = q.measure(store_array=False)
                     self.cells[d[1]] = r
                     self.cell_segment[d[1]] = self.segment
+                elif d[0] == "aa":
+                    q.measure(future=self.A0.get_future_index(self.locs[(0, d[1])]))
+            elif k == "newreg":
+                self.cells[n["dest"][1]] = conn.builder.new_register(n["init"])
+                self.cell_segment[n["dest"][1]] = self.segment
             elif k == "add":
                 t = self.opnd(n["target"], env)
                 o = self.opnd(n["operand"], env)
@@ -476,7 +506,7 @@ def _regs_stay_in_segment(tree, flushes) -> bool:
     def walk(ns, seg):
         nonlocal ok
         for n in ns:
-            if n["k"] == "m" and n["dest"][0] == "cell":
+            if n["k"] in ("m", "newreg") and n["dest"][0] == "cell":
                 seg_of_cell[n["dest"][1]] = seg
             for key in ("a", "b", "target", "operand"):
                 o = n.get(key)
@@ -815,8 +845,142 @@ def shard_triples(shard):
     return part
 
 
+def extra_programs():
+    """Programs outside the statement grammar above: less-used entry points and operand shapes.
+    (prog, flush sets, inits)"""
+    out = []
+    incr = ("add", ("lastreg",), 2, None)
+    users = [("add", ("lastreg",), 1, None), ("if", "ge", ("lastreg",), 1, "cb", [("gp", "h")]),
+             ("loop", 3, "fn", [("add", ("lastreg",), 1, None)]), ("loop", 2, "ctx", [("add", ("lastreg",), ("i",), None)]),
+             ("add", ("arr", 0), ("lastreg",), None), ("foreach", [("add", ("v",), ("lastreg",), None)])]
+    # conn.builder.new_register: the register the host holds must survive every construct that takes registers itself
+    for v in (0, 7):
+        for x in pool_reduced() + users:
+            out.append(([("newreg", v), x], [set()], [INITS[0]]))
+            out.append(([("newreg", v), x, incr], [set()], [INITS[0]]))
+        out.append(([("newreg", v), ("newreg", v + 1), ("add", ("lastreg",), 1, None)], [set()], [INITS[0]]))
+    # an array entry indexed by a Future (A0[A0[k]]) as measurement target, add target, add operand and condition operand
+    aa = []
+    for k in (0, 1):
+        aa += [[("m", "1", ("aa", k))], [("m", "+", ("aa", k))], [("add", ("aa", k), 1, None)], [("add", ("aa", k), ("arr", 1 - k), None)],
+               [("add", ("arr", k), ("aa", 1 - k), 2)], [("add", ("aa", k), ("aa", 1 - k), None)],
+               [("if", "eq", ("aa", k), 1, "ctx", [("gp", "x")])], [("if", "lt", ("arr", k), ("aa", k), "cb", [("add", ("aa", k), 1, None)])],
+               [("loop", 2, "ctx", [("add", ("aa", k), 1, None)])], [("foreach", [("add", ("aa", k), ("v",), None)])]]
+    for p in aa:
+        out.append((p, [set()], INITS))
+        for x in pool_small():
+            out.append((p + [x], [set(), {0}], [INITS[0], INITS[2]]))
+            out.append(([x] + p, [set(), {0}], [INITS[0]]))
+    # additions of 0 with a modulus (a "nothing to add" shortcut must still reduce), on array entries and registers
+    for mod in (1, 2, 3):
+        out.append(([("add", ("arr", 0), 0, mod)], [set()], INITS))
+        out.append(([("add", ("arr", 1), 2, None), ("add", ("arr", 1), 0, mod)], [set(), {0}], INITS))
+        out.append(([("m", "1", ("reg",)), ("add", ("lastreg",), 2, None), ("add", ("lastreg",), 0, mod)], [set()], [INITS[0]]))
+        out.append(([("newreg", 7), ("add", ("lastreg",), 0, mod)], [set()], [INITS[0]]))
+        out.append(([("add", ("arr", 0), ("arr", 1), None), ("add", ("arr", 0), ("arr", 1), mod)], [set()], INITS))
+    return out
+
+
+def shard_extra(shard):
+    _, lo, stride = shard
+    part = new_part()
+    for prog, flush_sets, inits in extra_programs()[lo::stride]:
+        for fl in flush_sets:
+            for init in inits:
+                run_case(prog, fl, init, part)
+        count(part, "extra-programs")
+    return part
+
+
+ARRAY_OPS = [("new", (5, 6)), ("new", (0, 0, 0)), ("newlen", 2), ("flush",), ("add",), ("meas",)]
+
+
+def shard_array_lifecycle(shard):
+    """Arrays over their whole life: created with / without initial values, in a subroutine of their own or together with
+    other work, written by later subroutines, on connections with and without the ret_arr option.  After every flush the
+    controller holds exactly the arrays of the model; with return_arrays the host handles read the same values."""
+    from netqasm.sdk.qubit import Qubit
+    _, first, depth = shard
+    part = new_part()
+    for rest in itertools.product(range(len(ARRAY_OPS)), repeat=depth - 1):
+        ops = [ARRAY_OPS[first]] + [ARRAY_OPS[i] for i in rest] + [("flush",)]
+        for return_arrays in (True, False):
+            case = {"array_lifecycle": [list(o) for o in ops], "return_arrays": return_arrays}
+            part["evals"] += 1
+            part["distinct"] += 1
+            world.reset()
+            ctrl, conn = simctl.make_pair("alice", horizon=1500, return_arrays=return_arrays)
+            ex = ctrl.executor
+            ex.chooser = lambda p0, p1: 1 if p1 > 1e-9 else 0
+            model: Dict[int, List[Any]] = {}        # what the controller must hold after the next flush
+            handles: Dict[int, Any] = {}
+            pending: List[Any] = []
+            ok = True
+            try:
+                for op in ops:
+                    if op[0] in ("new", "newlen"):
+                        vals = list(op[1]) if op[0] == "new" else [None] * op[1]
+                        arr = conn.new_array(len(vals), init_values=(vals if op[0] == "new" else None))
+                        handles[arr.address] = arr
+                        pending.append(("decl", arr.address, vals))
+                    elif op[0] == "add":
+                        tgt = [a for a, h in handles.items() if all(v is not None for v in _model_after(model, pending).get(a, [None]))]
+                        if not tgt:
+                            continue
+                        a = tgt[-1]
+                        handles[a].get_future_index(0).add(1)
+                        pending.append(("add", a))
+                    elif op[0] == "meas":
+                        if not handles:
+                            continue
+                        a = sorted(handles)[-1]
+                        q = Qubit(conn)
+                        q.X()
+                        q.measure(future=handles[a].get_future_index(len(handles[a]) - 1))
+                        pending.append(("set", a, len(handles[a]) - 1, 1))
+                    else:
+                        conn.flush()
+                        model = _model_after(model, pending)
+                        pending = []
+                        got = {int(a): list(v) for a, v in ex.classical_snapshot(conn.app_id)["arrays"].items()}
+                        if got != model:
+                            add_violation(part, "array-lifecycle/controller-arrays" + ("" if return_arrays else "/no-ret_arr"),
+                                          f"after the flush the controller holds arrays {got}, the program created and wrote {model}", case)
+                            ok = False
+                            break
+                        if return_arrays:
+                            host = {a: [h[i] for i in range(len(h))] for a, h in handles.items() if a in model}
+                            if host != model:
+                                add_violation(part, "array-lifecycle/host-handles", f"after the flush the host reads {host}, the controller "
+                                              f"holds {model}", case)
+                                ok = False
+                                break
+            except (simctl.Horizon, simctl.Blocked) as exc:
+                add_violation(part, "array-lifecycle/does-not-finish", f"{type(exc).__name__}: {exc}", case)
+                ok = False
+            except Exception as exc:
+                _guard(exc)
+                add_violation(part, f"array-lifecycle/raises/{type(exc).__name__}", f"{type(exc).__name__}: {str(exc).splitlines()[0][:160] if str(exc) else ''}", case)
+                ok = False
+            if ok:
+                count(part, "array-lifecycle-agree")
+    return part
+
+
+def _model_after(model, pending):
+    m = {a: list(v) for a, v in model.items()}
+    for p in pending:
+        if p[0] == "decl":
+            m[p[1]] = list(p[2])
+        elif p[0] == "add":
+            m[p[1]][0] += 1
+        elif p[0] == "set":
+            m[p[1]][p[2]] = p[3]
+    return m
+
+
 def _dispatch(shard):
-    return {"single": shard_singles, "pair": shard_pairs, "triple": shard_triples, "pairnv": shard_pairs_nv}[shard[0]](shard)
+    return {"arrays": shard_array_lifecycle, "extra": shard_extra, "single": shard_singles, "pair": shard_pairs, "triple": shard_triples, "pairnv": shard_pairs_nv}[shard[0]](shard)
 
 
 def _det(stmt):
@@ -831,6 +995,8 @@ def run(ctx):
     stride = 256
     shards: List[Any] = [("single", lo, stride) for lo in range(stride)]
     shards += [("pair", i) for i in range(len(pool_reduced()))]
+    shards += [("extra", lo, 16) for lo in range(16)]
+    shards += [("arrays", first, 3 if ctx.tier == "quick" else 4) for first in range(len(ARRAY_OPS))]
     shards += [("pairnv", i, cfg) for i in range(len(pool_reduced())) for cfg in ("nv", "nv+transpiler")]
     tp = pool_small() if ctx.tier == "quick" else pool_reduced()
     shards += [("triple", i, ctx.tier) for i in range(len(tp))]
@@ -843,9 +1009,18 @@ def run(ctx):
     ctx.require("pairs-nv", 100)
     ctx.require("pairs-nv+transpiler", 100)
     ctx.require("triples", 5)
+    ctx.require("extra-programs", 300)
+    ctx.require("array-lifecycle-agree", 300)
 
 
 def replay(case, part):
+    if "array_lifecycle" in case:
+        ops = [tuple(tuple(x) if isinstance(x, list) else x for x in o) for o in case["array_lifecycle"]]
+        first = [i for i, o in enumerate(ARRAY_OPS) if o == ops[0]][0]
+        p = shard_array_lifecycle(("arrays", first, len(ops) - 1))
+        part["violations"].extend(v for v in p["violations"] if v["case"] == case)
+        return
+
     def fix(x):
         if isinstance(x, list):
             # statements are tuples whose bodies are lists of tuples
